@@ -8,7 +8,7 @@ from . import c01
 
 XSD_QNAME = "http://www.w3.org/2001/XMLSchema#QName"
 PROV_LABEL = machine.PROV_URI + "label"
-NCNAME = re.compile(r"^[A-Za-z_][A-Za-z0-9_.\-]*$")
+NCNAME = re.compile(r"^[^\W\d][\w.\-]*$", re.UNICODE)  # (approximation of NCName: letters incl. non-ASCII, digits, _ . -)
 BAD_CHARS = re.compile("[\x00-\x08\x0b\x0c\x0d\x0e-\x1f￾￿]")
 
 
